@@ -210,13 +210,14 @@ theorem dictMerge_new {β : Type} (base upd : List (String × β))
         exact hnd.1 (by rw [he]; exact List.mem_map_of_mem hp)
     · exact hnd.2
 
-/-- default column order of a group: date, longitude, latitude, depth, then the attributes -/
+/-- default column order of a group without location properties (either variant of the code; here the old
+one): date, longitude, latitude, depth, then the attributes -/
 theorem single_release_default_order (date lon lat depth : List (Cell α)) (attrs : Frame α)
     (hnd : (attrs.map (·.1)).Nodup)
     (hres : ∀ p ∈ attrs, p.1 ≠ "date" ∧ p.1 ≠ "longitude" ∧ p.1 ≠ "latitude" ∧ p.1 ≠ "depth") :
-    (singleRelease date [("longitude", lon), ("latitude", lat)] [("depth", depth)] attrs []).map (·.1)
+    (singleRelease .locFirst date [("longitude", lon), ("latitude", lat)] [("depth", depth)] attrs []).map (·.1)
       = ["date", "longitude", "latitude", "depth"] ++ attrs.map (·.1) := by
-  unfold singleRelease
+  simp only [singleRelease]
   have e1 : dictMerge [("date", date)] [("longitude", lon), ("latitude", lat)]
       = [("date", date), ("longitude", lon), ("latitude", lat)] := by
     rw [dictMerge_new] <;> simp
@@ -245,6 +246,76 @@ theorem single_release_default_order (date lon lat depth : List (Cell α)) (attr
     intro hm
     obtain ⟨p, hp, he⟩ := List.mem_map.mp hm
     exact (hres p hp).2.2.2 he
+
+/-- `{**base, **upd}` keeps the keys of `base` in place: the result's keys are those of `base` followed by
+the new ones -/
+theorem dictMerge_keys_prefix {β : Type} (base upd : List (String × β)) :
+    ∃ rest, (dictMerge base upd).map (·.1) = base.map (·.1) ++ rest := by
+  unfold dictMerge
+  induction upd generalizing base with
+  | nil => exact ⟨[], by simp⟩
+  | cons kv rest ih =>
+    simp only [List.foldl_cons]
+    by_cases h : base.any (fun p => p.1 == kv.1)
+    · simp only [h, if_true]
+      obtain ⟨r, hr⟩ := ih (base.map (fun p => if p.1 == kv.1 then (p.1, kv.2) else p))
+      refine ⟨r, ?_⟩
+      rw [hr]
+      congr 1
+      rw [List.map_map]
+      apply List.map_congr_left
+      intro p _
+      show ((fun x => x.1) ∘ fun p => if (p.1 == kv.1) = true then (p.1, kv.2) else p) p = p.1
+      simp only [Function.comp]
+      split <;> rfl
+    · simp only [h, Bool.false_eq_true, if_false]
+      obtain ⟨r, hr⟩ := ih (base ++ [kv])
+      exact ⟨kv.1 :: r, by rw [hr]; simp⟩
+
+/-- a frame whose first key is `k` has `k` -/
+theorem lookup_head {β : Type} (f : List (String × β)) (k : String) (rest : List String)
+    (h : f.map (·.1) = k :: rest) : ∃ v, lookup f k = some v := by
+  cases f with
+  | nil => simp at h
+  | cons p ps =>
+    simp only [List.map_cons, List.cons.injEq] at h
+    exact ⟨p.2, by simp [lookup, List.find?, h.1]⟩
+
+/-- **default column order, current code, every location form** (also GeoJSON files whose features carry
+properties, and whatever the order in which the group lists `depth` among its attributes): the first four
+columns are date, longitude, latitude, depth -/
+theorem default_order_prefix (date lon lat depth : List (Cell α)) (loc implicit explicit : Frame α)
+    (hlon : lookup loc "longitude" = some lon) (hlat : lookup loc "latitude" = some lat) :
+    ∃ rest, (singleRelease .depthFourth date loc [("depth", depth)] implicit explicit).map (·.1)
+      = ["date", "longitude", "latitude", "depth"] ++ rest := by
+  unfold singleRelease
+  obtain ⟨r1, h1⟩ := dictMerge_keys_prefix [("depth", depth)] implicit
+  obtain ⟨r2, h2⟩ := dictMerge_keys_prefix (dictMerge [("depth", depth)] implicit) explicit
+  rw [h1] at h2
+  obtain ⟨d, hd⟩ := lookup_head _ "depth" (r1 ++ r2) (by simpa using h2)
+  simp only [hd, List.filterMap_cons, hlon, hlat, Option.map_some, List.filterMap_nil]
+  obtain ⟨r3, h3⟩ := dictMerge_keys_prefix
+    (("date", date) :: [("longitude", lon), ("latitude", lat)] ++ [("depth", d)])
+    (loc.filter (fun p => !(p.1 == "longitude" || p.1 == "latitude")))
+  obtain ⟨r4, h4⟩ := dictMerge_keys_prefix
+    (dictMerge (("date", date) :: [("longitude", lon), ("latitude", lat)] ++ [("depth", d)])
+      (loc.filter (fun p => !(p.1 == "longitude" || p.1 == "latitude"))))
+    (dictMerge (dictMerge [("depth", depth)] implicit) explicit)
+  rw [h3] at h4
+  exact ⟨r3 ++ r4, by rw [h4]; simp⟩
+
+/-- counter-witness for the code before the `fix:` commit: a GeoJSON feature property (`region`) takes the
+fourth column, and `depth` — which LADiM reads from the header-less file by position — comes fifth -/
+theorem props_before_depth_fails :
+    (singleRelease .locFirst [Cell.str "d"] [("longitude", [Cell.num (5 : Int)]), ("latitude", [Cell.num 60]),
+        ("region", [Cell.num 2])] [("depth", [Cell.num 0])] [("w", [Cell.num 1])] []).map (·.1)
+      = ["date", "longitude", "latitude", "region", "depth", "w"] := by decide
+
+/-- … and the current code on the same input -/
+theorem props_after_depth :
+    (singleRelease .depthFourth [Cell.str "d"] [("longitude", [Cell.num (5 : Int)]), ("latitude", [Cell.num 60]),
+        ("region", [Cell.num 2])] [("depth", [Cell.num 0])] [("w", [Cell.num 1]), ("depth", [Cell.num 3])] []).map (·.1)
+      = ["date", "longitude", "latitude", "depth", "region", "w"] := by decide
 
 /-- non-vacuity: two groups, the second lacks the attribute `w` of the first -/
 example :
